@@ -730,6 +730,16 @@ func runC10(c *Ctx) {
 				if ir.DerivesFrom(x.(*ssa.Store).Val, func(v ssa.Value) bool { return v == ssa.Value(n) }) && ir.LoopHeaderOf(x.Block()) == ir.LoopHeaderOf(n.Block()) {
 					okRebuild = true
 				}
+				// ... or collected in a local slice by that loop and
+				// stored once behind it
+				h := ir.LoopHeaderOf(n.Block())
+				if h != nil && !ir.LoopBlocks(h)[x.Block()] && h.Dominates(x.Block()) && ir.DerivesFrom(x.(*ssa.Store).Val, func(v ssa.Value) bool {
+					call, ok := v.(*ssa.Call)
+					return ok && isBuiltin("append")(call) && ir.LoopHeaderOf(call.Block()) == h && len(call.Call.Args) == 2 &&
+						ir.DerivesFrom(call.Call.Args[1], func(w ssa.Value) bool { return w == ssa.Value(n) })
+				}) {
+					okRebuild = true
+				}
 			}
 		})
 		// ... or collected by the library: slices.AppendSeq(filterEntries[:0], maps.Values(cache))
